@@ -188,6 +188,16 @@ PromptCancelLate(c, e) ==
   /\ IsWaitKind(c) \/ c.evictctx
   /\ e.obs.procs[e.step.p] = "blocked" /\ ~e.obs.kids[e.step.p]
 
+(* scenarios whose callers arrived one after the other, each asleep before the next (cfg.strictfull): whoever is seen     *)
+(* blocked is in the backlog.  The caller of this step went to sleep although the backlog held its maximum of blocked      *)
+(* callers when the step began - among them possibly callers whose context is done but who have not left yet (C12)         *)
+SleptAtFullBacklog(c, s0, e) ==
+  /\ "strictfull" \in DOMAIN c /\ c.strictfull /\ c.kind = "queue"
+  /\ e.step.a \in {"start", "pass"} /\ e.step.p \in Procs(c)
+  /\ s0.status[e.step.p] \in {"idle", "gate:acq.enter", "gate:acq.exit"}
+  /\ e.obs.procs[e.step.p] \in {"blocked", "gate:queue.afterPush"}
+  /\ Cardinality({q \in Procs(c) \ {e.step.p} : s0.status[q] = "blocked"}) >= c.qmax
+
 Step ==
   /\ l <= Len(Log)
   /\ l' = l + 1
@@ -207,6 +217,8 @@ Step ==
               s4 == [s3 EXCEPT !.kids = e.obs.kids]
           IN /\ PromptCancelLate(cfg, e) =>
                   PrintReject(e, "bound", "a cancelled caller that no gate holds had not returned when the step had settled (a completion was in progress)", e.step.p, s3)
+             /\ SleptAtFullBacklog(cfg, st, e) =>
+                  PrintReject(e, "backlog", "a caller went to sleep although the backlog already held its maximum of blocked callers when it arrived", e.step.p, s3)
              /\ IF s3.err # "" /\ s3.class = "early"
                 THEN \* an unjustified refusal leaves the book-keeping intact (the caller is out, holding nothing): report it and go
                      \* on, so that what the early return did to the other callers is judged as well
